@@ -380,6 +380,9 @@ where
     LM: MatchLiteral,
     <T as FromStr>::Err: Debug,
 {
+    #[cfg(feature = "verif")]
+    crate::expression::verif::count_partial_call();
+
     let partial_derivative_ops = make_partial_derivative_ops::<T, OF, LM>();
     let inner = partial_derivative_inner(
         var_idx,
